@@ -98,6 +98,7 @@ func replayPrinterLine(rep *lib.Report, prop string, ln *printerLine, raw []byte
 	desc := func() string { return caseString(c, ln.C) }
 	if res.Panicked != ln.Exc {
 		rep.DriftAt(fmt.Sprintf("%s: real panicked=%v (%s), model says %v", desc(), res.Panicked, res.PanicVal, ln.Exc))
+		judgePrinter(rep, prop, c, ln, &res, raw)
 		return
 	}
 	if res.Panicked {
